@@ -109,11 +109,11 @@ impl ComplexSelector {
     }
 
     pub fn max_specificity(&self) -> i32 {
-        self.specificity().min
+        self.specificity().max
     }
 
     pub fn min_specificity(&self) -> i32 {
-        self.specificity().max
+        self.specificity().min
     }
 
     pub fn specificity(&self) -> Specificity {
